@@ -527,7 +527,7 @@ func init() {
 		verifying := map[string][]c18Val{} // values whose signature verifies: H3/E1 and the C06 tags need them
 		var kinds []string
 		for _, v := range c18Pool(g) {
-			val, _, _ := c18Build(v.kind, unhx(v.hex), atoi(v.aux))
+			val := genBuild(v.kind, unhx(v.hex), atoi(v.aux))
 			if val == nil {
 				continue
 			}
@@ -543,7 +543,7 @@ func init() {
 		// identities with a NULL certificate (their key types are implied, not stored in the certificate)
 		for _, k := range []string{"kac", "dest", "rid"} {
 			nb := hx(g.encIdentity([]byte{0, 0, 0}))
-			if val, _, _ := c18Build(k, unhx(nb), 0); val != nil {
+			if val := genBuild(k, unhx(nb), 0); val != nil {
 				byKind[k] = append([]c18Val{{k, nb, "0"}}, byKind[k]...)
 			}
 		}
